@@ -440,6 +440,35 @@ namespace convert_detail {
                                            T_PointerType>::type>;
   };
 
+  // wchar_t where it is a signed type (where it is unsigned, the case above
+  // applies, as for char16_t and char32_t): like the signed integer type of its
+  // size. Without this tainted_volatile<wchar_t> has no representation, and the
+  // helpers that accept wchar_t buffers (copy_memory_or_grant_access,
+  // copy_and_verify_range, ...) cannot size their elements.
+  template<typename T,
+           typename T_ShortType,
+           typename T_IntType,
+           typename T_LongType,
+           typename T_LongLongType,
+           typename T_PointerType>
+  struct convert_base_types_t_helper<
+    T,
+    T_ShortType,
+    T_IntType,
+    T_LongType,
+    T_LongLongType,
+    T_PointerType,
+    std::enable_if_t<std::is_same_v<wchar_t, T> && std::is_signed_v<wchar_t>>>
+  {
+    using type =
+      typename convert_base_types_t_helper<std::make_signed_t<wchar_t>,
+                                           T_ShortType,
+                                           T_IntType,
+                                           T_LongType,
+                                           T_LongLongType,
+                                           T_PointerType>::type;
+  };
+
   template<typename T,
            typename T_ShortType,
            typename T_IntType,
